@@ -6,11 +6,40 @@ agree : the reader model (SaModel/Read/Reader.lean, `Fixes.all`) reproduces cons
 spec C17 (independent of the reader model): no panic, and an `Ok` result is either what the Arrow reading
 rules (`Spec.decode`) assign to that slot of the view *as it stands* (then nothing foreign can have been
 returned: `deserialize_any` results are compared with `toD` of the decoded value), or it equals what the
-uncorrupted view gives for the same read (the corruption was not touched).  The second escape is classified with the
-footprint relation of `SaModel.Props.C17.untouched_ok`: tag `untouched-justified` when `touchEq ty base view idx` holds
-(the corrupted view agrees with the base view on everything the read looks at, so by the theorem the result HAS to be
-the base result), `untouched-coincidence` when the results are equal although the footprint differs (possible
-legitimately: e.g. a corrupted offset pair that designates equal bytes) — both pass.
+uncorrupted view gives for the same read AND the corruption was not touched: `touchEq ty base view idx` holds (the
+corrupted view agrees with the base view on everything the read looks at; by `SaModel.Props.C17.untouched_ok` the
+result HAS to be the base result) — tag `untouched-justified`.
+
+An `Ok` whose slot `Spec.decodeAt` rejects (or reads differently) and that has to visit something outside the ranges
+the view designates — `touchOK` is false: a row / element / key / union slot beyond the length of its array, or, at
+a leaf, an offset pair outside the data buffer, a view descriptor that names a buffer the view does not have or a
+range outside that buffer, a FixedSizeBinary row outside the data — is a violation whatever the uncorrupted view
+gives there (`C17/out-of-range/…`; `readRecord_touch_in_range`: no successful read of the model does that).
+
+`untouched-coincidence` (an `Ok` equal to the base read although the FOOTPRINT differs and `Spec.decodeAt` rejects
+the slot or reads it differently) is no longer an escape.  It would need a reader that LOOKS at the corrupted datum
+(`touchEq` is the exact footprint of a successful read), accepts it although the Arrow reading rejects it, and still
+produces the base value.  The readers accept more than `Spec.decodeAt` in exactly two places, both recorded known
+findings: (a) typed reads of struct / list / map columns into non-Option targets never consult the container's
+validity (#23) — not part of the footprint of such a read, so a corruption there is `untouched-justified`, never a
+coincidence; (b) an empty element range of a list / map column beyond its child — the offset pair IS in the
+footprint, but a single corruption of one offset of an empty pair makes it non-empty or decreasing (another value
+or an error), both offsets of one pair are never corrupted together (the pair generator never takes two sites on
+one path), and a corruption of the CHILD that leaves the pair alone has an equal footprint (justified).  With two
+corruptions (thorough tier) one of them can be of kind (a) / (b) and the other one looked at but without
+influence on the value (a byte of a field that is skipped through `IgnoredAny`, an offset pair moved over equal
+bytes): such a case is classified by what makes `Spec.decodeAt` reject the slot, i.e. it is reported as the known
+finding `C17/validity-not-consulted` / `C17/empty-range-beyond-child`, exactly as when the result differs from the
+base read.  Everything else is `C17/foreign/…` (tag `untouched-coincidence` kept for the evidence).
+Two corruptions of which the read looks at only ONE (a tuple target that reads the leading fields, the other corruption in
+a field it does not read; `Spec.decodeAt` decodes the whole slot and rejects it): the case carries the two views with one
+corruption each (`alts`); the result is explained when the view agrees with one of them on the footprint of the read
+(`touchEq`) and the Arrow reading of that one explains the result (tag `explained-by-single-corruption`; this is
+where the coincidences of the thorough tier go: e.g. seed 3 has 5 reads equal to the base read with a differing
+footprint, all of them explained this way).  The compound of the two known findings (a typed read that does not
+look at a container's broken validity and finds an empty element beyond the child) is reported as
+`C17/empty-range-beyond-child`.  Quick and
+thorough tier, seeds 1–3, unchanged tree: the tag never occurs.
 Correspondence also covers the theorem itself: where `touchEq` holds, the implementation's outcome on the corrupted
 view must be its outcome on the base view (same class, same value), for every read, Ok or not. -/
 namespace Driver.Suites.Corrupt
@@ -30,6 +59,11 @@ def handle (j : Json) : Except String Verdict := do
     match getOpt j "base" with
     | some b => pure (some (record fm (← arrOfJson b)))
     | none => pure none : Except String (Option Arr))
+  -- pairs: the two views with one of the two corruptions each
+  let alts ← (do
+    match getOpt j "alts" with
+    | some (.arr xs) => xs.toList.mapM fun x => do pure (record fm (← arrOfJson x))
+    | _ => pure [] : Except String (List Arr))
   let mctor := new Fixes.all rec_
   let ccls := implCls ctor
   let kind := arrKind col
@@ -82,26 +116,37 @@ def handle (j : Json) : Except String Verdict := do
       nOk := nOk + 1
       let implVal := (impl.getObjVal? "ok").toOption.getD Json.null
       let sd := Spec.decodeAt rec_ r.idx
-      let consistent := match sd with
+      -- the Arrow reading of slot `idx` of `w` explains the result (typed: the slot is decodable)
+      let explainedBy (w : Arr) : Bool := match Spec.decodeAt w r.idx with
         | .ok lv =>
           match r.ty with
-          | .any => dvalMatches (toD rec_ lv) implVal
+          | .any => dvalMatches (toD w lv) implVal
           | _ => true
         | .error _ => false
+      let consistent := explainedBy rec_
       let untouched := baseImpls.getD k Json.null == impl
       if untouched then nUntouched := nUntouched + 1
-      -- the escape "equals the read on the uncorrupted view" is used: justified by the theorem, or a coincidence
-      if !consistent && untouched then
-        tags := (if fpEq then "untouched-justified" else "untouched-coincidence") :: tags
-      -- an `Ok` that had to visit a slot beyond the length of the array it belongs to (independent of what the
-      -- uncorrupted view would have given there: the elements come from outside the ranges the view designates)
+      -- the escape "equals the read on the uncorrupted view": only where the theorem justifies it (equal footprint)
+      let justified := untouched && fpEq
+      -- two corruptions, the read looks at only one of them: the view agrees on the footprint of the read (`touchEq`,
+      -- `untouched_ok`: same result) with the view that has only that corruption, and the Arrow reading of THAT view
+      -- explains the result
+      let viaSingle := !consistent && !justified && !r.bulk &&
+        alts.any fun w => touchEq r.ty w rec_ r.idx && explainedBy w
+      if !consistent then
+        if justified then tags := "untouched-justified" :: tags
+        else if viaSingle then tags := "explained-by-single-corruption" :: tags
+        else if untouched then tags := "untouched-coincidence" :: tags
+      -- an `Ok` that had to visit a slot beyond the length of the array it belongs to, or bytes outside the buffer
+      -- its offsets / descriptor designate (independent of what the uncorrupted view would have given there: the
+      -- elements / bytes come from outside the ranges the view designates)
       if !consistent && !r.bulk && !(touchOK r.ty rec_ r.idx) then
         return { agree := (match compareRead m impl with | .agree => true | _ => false),
                  spec := [("C17", "fail"), ("C16", "pass")],
                  sig := s!"C17/out-of-range/{attributeRead fm col r impl}/{fam}/{targetKind r.ty}",
                  tags := tags,
-                 why := s!"read #{k} (idx {r.idx}, {targetKind r.ty}) returns Ok although it has to visit a slot beyond the length of the array it belongs to ({cclass}): {impl.compress.take 240}" }
-      if !consistent && !untouched then
+                 why := s!"read #{k} (idx {r.idx}, {targetKind r.ty}) returns Ok although it has to visit a slot beyond the length of the array it belongs to, or bytes outside the buffer that its offsets / view descriptor designate ({cclass}): {impl.compress.take 240}" }
+      if !consistent && !justified && !viaSingle then
         -- known finding #23: typed reads of struct / list / map into non-Option targets never consult validity
         let typedIgnoresValidity := (match r.ty with | .any => false | _ => true) &&
           (Spec.decodeAt (stripContainerValidity rec_) r.idx).isOk
@@ -111,7 +156,11 @@ def handle (j : Json) : Except String Verdict := do
                    sig := s!"C17/validity-not-consulted/{fam}/{targetKind r.ty}", tags := tags,
                    why := s!"read #{k} (idx {r.idx}, {targetKind r.ty}): a container's validity bitmap is inconsistent ({cclass}) but the typed read into a non-Option target never looks at it: {impl.compress.take 200}" }
         -- an element with start == end beyond the child's length is read as empty: the child is never touched
-        let emptyBeyond := (match sd with | .error (.err "offsets out of range") => true | _ => false) &&
+        -- (with two corruptions also together with the previous finding: a typed read that does not look at a
+        -- container's broken validity AND finds an empty element beyond the child)
+        let isTyped := (match r.ty with | .any => false | _ => true)
+        let outOfRange (x : R LVal) : Bool := match x with | .error (.err "offsets out of range") => true | _ => false
+        let emptyBeyond := (outOfRange sd || (isTyped && outOfRange (Spec.decodeAt (stripContainerValidity rec_) r.idx))) &&
           (match compareRead m impl with | .agree => true | _ => false)
         if emptyBeyond then
           return { agree := true, spec := [("C17", "fail"), ("C16", "pass")],
@@ -121,7 +170,9 @@ def handle (j : Json) : Except String Verdict := do
                  spec := [("C17", "fail"), ("C16", "pass")],
                  sig := s!"C17/foreign/{attributeRead fm col r impl}/{fam}/{targetKind r.ty}",
                  tags := tags,
-                 why := s!"read #{k} (idx {r.idx}, {targetKind r.ty}) returns Ok although the slot is inconsistent ({cclass}) and differs from the uncorrupted read: {impl.compress.take 240}" }
+                 why := s!"read #{k} (idx {r.idx}, {targetKind r.ty}) returns Ok although the slot is inconsistent ({cclass}) and " ++
+                   (if untouched then "equals the uncorrupted read only by coincidence (the read looks at the corrupted data: touchEq is false)"
+                    else "differs from the uncorrupted read") ++ s!": {impl.compress.take 240}" }
     else
       nErr := nErr + 1
     -- correspondence
